@@ -951,6 +951,7 @@ fn run_inner<P: Property>(args: &[String]) -> Result<i32, String> {
             "violation_classes": reported,
             "known_findings_seen": known_lines.iter().map(|(k, v)| json!({"id": k, "occurrences": v.1})).collect::<Vec<_>>(),
             "workers": workers,
+            "file_seam_hook": if crate::seams::FILE_SEAM { "on: path wrappers run under simulation (wrapper stacks)" } else { "OFF: the tree under test did not compile with --cfg retrofire_verif; wrapper stacks fell back to the wrappers' compositions over the stubs" },
             "jobs_abandoned_after_repeated_process_deaths": abandoned_jobs,
         },
         "assumptions": [
